@@ -7,3 +7,30 @@ def run_check(mod, ck, prog) -> None:
     from .totality import totality
     extra = getattr(mod, 'TOTAL_SCOPE', ())
     totality(ck, prog, extra(prog) if callable(extra) else extra)
+
+
+_BORROWING = set()
+
+
+def borrow(ck, prog, from_prop: str, rules, why: str) -> None:
+    """Run the rules `rules` of another property's check as part of this one: a property whose statement relies on a mechanism runs
+    the rules that guard that mechanism, whichever property they were written for.  The borrowed findings keep their rule ids."""
+    import importlib
+    from ..report import Check
+    key = (ck.prop, from_prop)
+    if key in _BORROWING or (from_prop, ck.prop) in _BORROWING:
+        return
+    _BORROWING.add(key)
+    try:
+        mod = importlib.import_module(f'pjx.props.{from_prop.lower()}')
+        tmp = Check(from_prop, 'quick')
+        mod.run(tmp, prog)
+        rules = set(rules)
+        got = [f for f in tmp.findings if f.rule in rules]
+        n_ob = sum(tmp.rules.get(r, {}).get('instances', 0) for r in rules)
+        ck.ob(sorted(rules)[0], f'{", ".join(sorted(rules))} of {from_prop} ({why}): {n_ob} rule instances', not got, nontrivial=n_ob > 0)
+        for f in got:
+            ck.finding(f.rule, f.func, f.construct, f.file, f.line, f.message, f.witness)
+        ck.functions |= {q for q in tmp.functions if any(q == f.func for f in got)}
+    finally:
+        _BORROWING.discard(key)
